@@ -711,6 +711,7 @@ func (e *Engine) verifyFunc(key string, sem chan struct{}) *FuncResult {
 	results := make([]*OblResult, len(ft.obls))
 	for i, o := range ft.obls {
 		var b strings.Builder
+		b.WriteString("; obligation: " + strings.ReplaceAll(o.Name, "\n", " ") + "\n")
 		b.WriteString(decls)
 		for _, a := range ft.asserts[:o.NAssert] {
 			b.WriteString(a)
